@@ -562,11 +562,23 @@ func TestC20(t *testing.T) {
 		if rapid.IntRange(0, 3).Draw(t, "explicitC1") == 0 {
 			c.C = 1
 		}
+		if rapid.IntRange(0, 2).Draw(t, "entities") == 0 {
+			c.E = map[string]string{"company": "ACME", "co": "x"}
+		}
+		// some XML files reference the entity: they parse only when -e binds it
+		for i := range c.Files {
+			f := &c.Files[i]
+			if f.Kind == "file" && typeOfPath(f.Path) == "xml" && rapid.IntRange(0, 3).Draw(t, "entityRef") == 0 {
+				if j := bytes.LastIndex(f.Data, []byte("</")); j > 0 {
+					f.Data = append(append(append([]byte{}, f.Data[:j]...), []byte("&company;")...), f.Data[j:]...)
+				}
+			}
+		}
 		c.S = map[string]string{"x": "urn:x", "y": "urn:y"}
 		c.V = map[string]string{"val": []string{"1", "x y", "é"}[rapid.IntRange(0, 2).Draw(t, "varVal")], "x:nv": "2"}
 		exprs := []string{"/*", "//a", "//b", "//*", "//text()", "//@*", "count(//*)", "string(//a)", "//a = $val", "//*[. = $val]", "//x:*", "//y:a",
 			"name(/*)", "//comment()", "//processing-instruction()", "/", "//a/..", "//namespace::node()", "boolean(//b)", "concat($val, $x:nv)", "//*[@id]", "//a/ancestor::*", "/nosuch", "//c | //a",
-			"/#obj", "//#arr/text()", "//p", "//*[text()]", "sum(//a)", "substring('é€x', 2)", "$val", "1 div 0"}
+			"/#obj", "//#arr/text()", "//p", "//*[text()]", "sum(//a)", "substring('é€x', 2)", "$val", "1 div 0", "//*[contains(., 'ACME')]", "string(/*)"}
 		c.Expr = exprs[rapid.IntRange(0, len(exprs)-1).Draw(t, "expr")]
 		if len(c.Args) == 0 {
 			c.Args = []string{c.Files[0].Path}
